@@ -343,6 +343,26 @@ pub fn message_space() -> Vec<RFile> {
             }]);
         }
     }
+    // optional octet strings that are present but empty (only expressible with a non-minimal TLF,
+    // since the minimal empty string *is* the absent marker), one field at a time
+    {
+        let e = Some(vec![]);
+        let base_gl = |client_id: Option<Vec<u8>>, list_name: Option<Vec<u8>>, list_sig: Option<Vec<u8>>, entry_sig: Option<Vec<u8>>| RMsg {
+            tid: vec![7],
+            group: 0,
+            abort: 0,
+            body: RBody::GetList { client_id, server_id: vec![1], list_name, act_sensor_time: None, vals: vec![REntry { sig: entry_sig, ..simple_entry(3) }], list_sig, act_gateway_time: None },
+        };
+        files.push(vec![base_gl(e.clone(), None, None, None)]);
+        files.push(vec![base_gl(None, e.clone(), None, None)]);
+        files.push(vec![base_gl(None, None, e.clone(), None)]);
+        files.push(vec![base_gl(None, None, None, e.clone())]);
+        files.push(vec![base_gl(e.clone(), e.clone(), e.clone(), e.clone())]);
+        let base_open = |codepage: Option<Vec<u8>>, client_id: Option<Vec<u8>>| RMsg { tid: vec![7], group: 0, abort: 0, body: RBody::Open { codepage, client_id, req_file_id: vec![], server_id: vec![], ref_time: None, sml_version: None } };
+        files.push(vec![base_open(e.clone(), None)]);
+        files.push(vec![base_open(None, e.clone())]);
+        files.push(vec![base_open(e.clone(), e.clone()), base_gl(None, None, e.clone(), None), RMsg { tid: vec![], group: 0, abort: 0, body: RBody::Close { sig: e.clone() } }]);
+    }
     // very long lists of minimal entries: the element count crosses 2^12 and 2^16
     let min_entry = REntry { obj_name: vec![], status: None, val_time: None, unit: None, scaler: None, value: RValue::Bytes(vec![]), sig: None };
     for n in [4095usize, 4096, 65534, 65535, 65536, 65537] {
@@ -920,6 +940,20 @@ fn c12_input(site: u8, tlf: &[u8], n: usize) -> Vec<u8> {
             body.extend_from_slice(&entry_tail);
             body.extend_from_slice(&[0x01, 0x01]);
         }
+        // s5: a list entry's val_time, n data bytes follow; s6: the same position followed by what the
+        // inside of a time choice list looks like (tag 1, 4-byte seconds index)
+        5 | 6 => {
+            body.extend_from_slice(&[0x76, 0x03, 0x0a, 0x0b, 0x62, 0x00, 0x62, 0x00, 0x72, 0x63, 0x07, 0x01, 0x77, 0x01, 0x03, 0x09, 0x08, 0x01, 0x01, 0x71]);
+            body.extend_from_slice(&[0x77, 0x01, 0x01]);
+            body.extend_from_slice(tlf);
+            if site == 5 {
+                body.extend_from_slice(&data);
+            } else {
+                body.extend_from_slice(&[0x62, 0x01, 0x65, 0x00, 0x00, 0x00, 0x2a]);
+            }
+            body.extend_from_slice(&[0x01, 0x01, 0x62, 0x05, 0x01]);
+            body.extend_from_slice(&[0x01, 0x01]);
+        }
         // s4: the message head (n is ignored: a close response body follows)
         _ => {
             body.extend_from_slice(tlf);
@@ -977,7 +1011,7 @@ fn c12_tlf_family(maxbytes: usize, sites: &[u8], proto: &Acc, name: &'static str
                 continue;
             }
             for &site in sites {
-                let cap = if site == 2 { 3 } else { 4200 };
+                let cap = if site == 2 { 3 } else if site == 6 { 0 } else { 4200 };
                 for n in hypotheses(&t, cap) {
                     let x = c12_input(site, &t, n);
                     acc.feed(&x, name);
@@ -1068,8 +1102,8 @@ fn c12_long_tlfs(proto: &Acc) -> Acc {
         let mut acc = Acc::new(&proto.report, proto.rename_c12);
         for i in a..b {
             let t = &tl[i as usize];
-            for site in [1u8, 2, 3, 4] {
-                let cap = if site == 2 { 3 } else { 4200 };
+            for site in [1u8, 2, 3, 4, 5, 6] {
+                let cap = if site == 2 { 3 } else if site == 6 { 0 } else { 4200 };
                 for n in hypotheses(t, cap) {
                     acc.feed(&c12_input(site, t, n), "type-length fields of 4..12 bytes at four grammar sites");
                 }
@@ -1415,9 +1449,9 @@ pub fn run(prop: &'static str, tier: Tier) -> ! {
             all.counts.require(&["checksum-repaired variants", "inputs the independent reader accepts", "inputs the independent reader rejects"]);
         }
         "C12" => {
-            fam("1-byte TLFs", c12_tlf_family(1, &[1, 2, 3, 4], &proto, "all 1-byte type-length fields at four grammar sites"), &mut all);
-            fam("2-byte TLFs", c12_tlf_family(2, &[1, 2, 3, 4], &proto, "all 2-byte type-length fields at four grammar sites"), &mut all);
-            let s3: &[u8] = tier.pick(&[2, 3, 4], &[1, 2, 3, 4]);
+            fam("1-byte TLFs", c12_tlf_family(1, &[1, 2, 3, 4, 5, 6], &proto, "all 1-byte type-length fields at six grammar sites"), &mut all);
+            fam("2-byte TLFs", c12_tlf_family(2, &[1, 2, 3, 4, 5, 6], &proto, "all 2-byte type-length fields at six grammar sites"), &mut all);
+            let s3: &[u8] = tier.pick(&[2, 3, 4], &[1, 2, 3, 4, 5, 6]);
             fam("3-byte TLFs", c12_tlf_family(3, s3, &proto, "all 3-byte type-length fields"), &mut all);
             extra.put("three_byte_tlf_sites", s3.iter().map(|s| format!("s{}", s)).collect::<Vec<_>>());
             fam("long TLFs", c12_long_tlfs(&proto), &mut all);
